@@ -157,6 +157,25 @@ func (s *simReader) Read(p []byte) (int, error) {
 	return n, nil
 }
 
+// simReaderAt is a simReader that also offers io.ReaderAt, like *os.File and *bytes.Reader.
+type simReaderAt struct{ *simReader }
+
+func (s simReaderAt) ReadAt(p []byte, off int64) (int, error) {
+	verifsim.Yield(verifsim.SiteStreamIO)
+	s.fired["ReadAt"]++
+	if s.dead {
+		return 0, errInjected
+	}
+	if off < 0 || off >= int64(len(s.data)) {
+		return 0, io.EOF
+	}
+	n := copy(p, s.data[off:])
+	if n < len(p) {
+		return n, io.EOF
+	}
+	return n, nil
+}
+
 func (s *simReader) Seek(off int64, whence int) (int64, error) {
 	k := s.seeks
 	s.seeks++
@@ -194,7 +213,11 @@ type Spec struct {
 	Faults    []StreamFault `json:"faults,omitempty"`
 	// B2/F2: a second input of the same scenario that shares a long prefix with the first but
 	// declares another format (whatever detection remembers about the first must not answer for it)
-	B2 string `json:"b2,omitempty"`
+	// StartOff: the caller hands the stream over at this offset (it has read some of it already)
+	StartOff int `json:"start_off,omitempty"`
+	// ReaderAt: the stream also implements io.ReaderAt (as *os.File and *bytes.Reader do)
+	ReaderAt bool   `json:"reader_at,omitempty"`
+	B2       string `json:"b2,omitempty"`
 	F2 string `json:"f2,omitempty"`
 }
 
@@ -506,6 +529,12 @@ func (Engine) Generate(prop string, verifSeed int64, tier string, idx int) *core
 		}
 	}
 	sp.B = base64.StdEncoding.EncodeToString(b)
+	if r.Intn(4) == 0 {
+		sp.ReaderAt = true
+	}
+	if r.Intn(5) == 0 && len(b) > 2 {
+		sp.StartOff = 1 + r.Intn(len(b)-1)
+	}
 	sp.Chunkings = genChunkings(r, len(b))
 	sp.EOFWith = r.Intn(3) == 0
 	sc := &core.Scenario{V: 1, Property: "C06", Engine: "stream", VerifSeed: verifSeed, Run: idx, RunSeed: seed}
@@ -577,7 +606,7 @@ type outcome struct {
 	posErr error
 }
 
-func sniff(sr *simReader) (o outcome) {
+func sniff(sr io.ReadSeeker) (o outcome) {
 	defer func() {
 		if p := recover(); p != nil {
 			switch v := p.(type) {
@@ -701,7 +730,15 @@ func judge(res *core.Result, sp *Spec, data []byte, chunks []int, eofWith bool, 
 		}
 	}
 	sr := newSimReader(data, chunks, eofWith, real)
-	o := sniff(sr)
+	if sp.StartOff > 0 && sp.StartOff <= len(sr.data) {
+		sr.pos = sp.StartOff // the caller had a look at the stream before asking what it is
+		res.Probes["stream handed over at a non-zero offset"]++
+	}
+	var rs io.ReadSeeker = sr
+	if sp.ReaderAt {
+		rs = simReaderAt{sr}
+	}
+	o := sniff(rs)
 	for k, v := range sr.fired {
 		res.Faults[k] += v
 	}
@@ -738,6 +775,11 @@ func judge(res *core.Result, sp *Spec, data []byte, chunks []int, eofWith bool, 
 		}
 	}
 
+	if sp.StartOff > 0 {
+		// Handed over in mid-stream: the property promises where the stream is left (checked above) and
+		// totality; what detection makes of a stream it did not get from its start is not specified.
+		return out
+	}
 	// what does the input itself declare (independent decode of the bytes actually delivered)
 	dt, dv, isJSON := declared(sr.data)
 	if o.err == nil && o.f != "" && isJSON {
@@ -759,7 +801,7 @@ func judge(res *core.Result, sp *Spec, data []byte, chunks []int, eofWith bool, 
 		// the following parse on the same reader sees the whole document
 		res.Probes["sniff then parse on the same stream"]++
 		rd := reader.New()
-		d1, err1 := parseGuard(func() (*sbom.Document, error) { return rd.ParseStream(sr) })
+		d1, err1 := parseGuard(func() (*sbom.Document, error) { return rd.ParseStream(rs) })
 		d2, err2 := parseGuard(func() (*sbom.Document, error) {
 			return rd.ParseStreamWithOptions(bytes.NewReader(sr.data), &reader.Options{Format: formats.Format(sp.F), UnserializeOptions: &native.UnserializeOptions{}})
 		})
